@@ -14,6 +14,12 @@ C11 — property theorems.  "Scripts can reach only the globals the host configu
   modules (`a.b.c.f`): `C11_full_deny` / `C11_full_override` are refuted by a concrete
   witness, the guard is `deepName`, and the `_partial` theorems hold for every other name.
 
+* Host-owned inputs (section 9): the host's Go maps are heap objects with identity that several
+  option sequences may name; for the code as it is (`WithGlobals` copies) no option sequence and no
+  `Config.init` writes a host map (`host_inputs_never_written`) and every configuration built in
+  a shared world is a function of its own option sequence (`configs_independent_shared_inputs`,
+  `shared_inputs_each_own_sequence`); the variant that adopts the caller's map is refuted.
+
 All statements quantify over ALL states, names, graphs and paths; nothing is bounded.
 -/
 namespace Risor.C11
@@ -1056,6 +1062,141 @@ example :
     (∀ it ∈ [((5 : Id), ([([101], 6)] : Table))], it.1 ∉ reach (graphOf a) [root]) ∧
     (∀ bm ∈ [((6 : Id), (5 : Id))], bm.1 ∉ reach (graphOf a) [root]) ∧
     reachable (graphOf (addConfig a [(5, [([101], 6)])] [(6, 5)])) [root] 2 = false := by
+  decide
+
+/-! ## 9. host-owned inputs shared between configurations
+
+The host's Go maps have identity (`World.heap`); several option sequences may name the same map
+(`HOpt.globalsMap h`).  `build false` is `NewConfig(opts...)` of the code as it is (`WithGlobals`
+copies), `build true` the contrast in which `WithGlobals` adopts the host's map; `runBuilds` builds
+any number of configurations one after the other in one world.  `ownGlobals` is the Spec: the
+configuration's globals as a function of its own option sequence only. -/
+
+/-- the statement "building a configuration writes no host map", for either variant of
+    `WithGlobals` -/
+def HostInputsNeverWritten (adopt : Bool) : Prop :=
+  ∀ (w : World) (b : Build), (build adopt w b).1.heap = w.heap
+
+/-- **host_inputs_never_written.** For the code as it is (`WithGlobals` copies the entries):
+    for EVERY world (any host maps, shared by any number of option sequences), every option
+    sequence — any mixture of `WithGlobals(m)` for any host maps `m`, the same map several times,
+    `WithGlobal`, `WithoutGlobal(s)`, `WithGlobalOverride`, `WithoutDefaultGlobals` — every default
+    table and every iteration order, folding the options and running `Config.init` leaves every
+    host-supplied map exactly as it was (same keys, same values). -/
+theorem host_inputs_never_written : HostInputsNeverWritten false :=
+  fun w b => (build_copy w b).1
+
+/-- **A configuration's globals are a function of its own option sequence.**  Whatever the
+    world contains (modules and builtins of other configurations, any module heap), the built
+    Config owns its globals map and its contents are `ownGlobals`: the fold of ITS options over
+    the host maps' contents, then `Config.init` — so every theorem of section 6
+    (`optseq_top_binding`, `optseq_meets_spec`, `optseq_denied_stays_denied`, …) applies to it
+    with `opts := flatten w.heap b.opts`. -/
+theorem build_own_sequence (w : World) (b : Build) :
+    (build false w b).2 = ⟨none, ownGlobals w.heap b⟩ :=
+  (build_copy w b).2
+
+/-- what a built Config of the code as it is shows does not depend on the host maps' later
+    contents -/
+theorem visible_own (t : Table) (heap : List (Id × Table)) :
+    (⟨none, t⟩ : Built).visible heap = t := rfl
+
+/-- any number of configurations, one after the other: no host map is written and the k-th
+    result is what the k-th request gives alone on the ORIGINAL host maps -/
+theorem runBuilds_copy (bs : List Build) (w : World) :
+    (runBuilds false w bs).1.heap = w.heap ∧
+    (runBuilds false w bs).2 = bs.map fun b => (⟨none, ownGlobals w.heap b⟩ : Built) := by
+  induction bs generalizing w with
+  | nil => exact ⟨rfl, rfl⟩
+  | cons b bs ih =>
+    obtain ⟨h1, h2⟩ := ih (build false w b).1
+    have hb := build_copy w b
+    simp only [runBuilds, List.map_cons]
+    rw [h1, h2, hb.1, hb.2]
+    exact ⟨rfl, rfl⟩
+
+/-- **host_inputs_never_written, sequences of configurations.** -/
+theorem host_inputs_never_written_seq (w : World) (bs : List Build) :
+    (runBuilds false w bs).1.heap = w.heap :=
+  (runBuilds_copy bs w).1
+
+/-- **configs_independent_shared_inputs.**  Two configurations whose option sequences may name
+    the SAME host maps (and the same objects inside them), built in one world in either order:
+    * neither build writes a host map;
+    * each built Config is exactly what its own request gives alone — `ownGlobals` of ITS
+      sequence over the host maps as the host wrote them — whether it is built first or second;
+    * what the first Config shows is the same after the second was built (at the final heap).
+    For all worlds, option sequences, default tables and iteration orders. -/
+theorem configs_independent_shared_inputs (w : World) (b1 b2 : Build) :
+    let r1 := build false w b1
+    let r2 := build false r1.1 b2
+    r2.1.heap = w.heap ∧
+    r1.2 = ⟨none, ownGlobals w.heap b1⟩ ∧ r2.2 = ⟨none, ownGlobals w.heap b2⟩ ∧
+    r2.2 = (build false w b2).2 ∧
+    r1.2.visible r2.1.heap = ownGlobals w.heap b1 ∧ r2.2.visible r2.1.heap = ownGlobals w.heap b2 := by
+  intro r1 r2
+  have h1 := build_copy w b1
+  have h2 := build_copy r1.1 b2
+  have h3 := build_copy w b2
+  have e1 : r1.1.heap = w.heap := h1.1
+  have e2 : r2.2 = ⟨none, ownGlobals w.heap b2⟩ := by rw [← e1]; exact h2.2
+  refine ⟨h2.1.trans e1, h1.2, e2, e2.trans h3.2.symm, ?_, ?_⟩
+  · rw [show r1.2 = _ from h1.2]; rfl
+  · rw [e2]; rfl
+
+/-- **Any number of configurations, any order.**  For every list of requests over shared host
+    maps: the list of built Configs is the list of their `ownGlobals` — position by position. -/
+theorem shared_inputs_each_own_sequence (w : World) (bs : List Build) :
+    (runBuilds false w bs).2 = bs.map fun b => (⟨none, ownGlobals w.heap b⟩ : Built) :=
+  (runBuilds_copy bs w).2
+
+/-- … hence building the same requests in another order (permissive before restrictive or the
+    reverse, or any interleaving of whole builds) yields the same Configs, permuted. -/
+theorem shared_inputs_order_irrelevant (w : World) (bs bs' : List Build) (h : bs.Perm bs') :
+    (runBuilds false w bs).2.Perm (runBuilds false w bs').2 := by
+  rw [shared_inputs_each_own_sequence, shared_inputs_each_own_sequence]
+  exact h.map _
+
+/-! ### contrast: `WithGlobals` adopts the host's map -/
+
+/-- host map 7 = {x ↦ 9}; the permissive request (defaults: `os` ↦ module 1) and the restrictive
+    one (`WithoutDefaultGlobals`), both `WithGlobals(m)` with the SAME map -/
+def adoptWorld : World := ⟨[(7, [([120], 9)])], [], []⟩
+def permissive : Build := ⟨[.globalsMap 7], [([111, 115], 1)], [(1, [])], [], [], []⟩
+def restrictive : Build := ⟨[.opt .noDefaults, .globalsMap 7], [([111, 115], 5)], [(5, [])], [], [], []⟩
+
+/-- **Counterexample (adopting variant).**  `NewConfig(WithGlobals(m))` writes the default
+    globals into the HOST's map. -/
+theorem adopting_writes_host_map : ¬ HostInputsNeverWritten true := by
+  intro h
+  exact absurd (h adoptWorld permissive) (by decide)
+
+/-- **Counterexample (adopting variant): configurations interfere, in both orders.**
+    Permissive then restrictive: the restrictive Config — `WithoutDefaultGlobals` — binds `os` to
+    the module the PERMISSIVE Config's defaults created (1).  Restrictive then permissive: the
+    restrictive Config, built first and correct then (`os` unbound), binds `os` once the
+    permissive one has been built.  With the code as it is, `os` is unbound in both. -/
+theorem adopting_configs_interfere :
+    (let r := runBuilds true adoptWorld [permissive, restrictive]
+     r.2.map (fun b => tget (b.visible r.1.heap) [111, 115]) = [some 1, some 1]) ∧
+    (let r := runBuilds true adoptWorld [restrictive, permissive]
+     tget ((build true adoptWorld restrictive).2.visible (build true adoptWorld restrictive).1.heap) [111, 115] = none ∧
+     r.2.map (fun b => tget (b.visible r.1.heap) [111, 115]) = [some 1, some 1]) ∧
+    (let r := runBuilds false adoptWorld [permissive, restrictive]
+     r.2.map (fun b => tget (b.visible r.1.heap) [111, 115]) = [some 1, none] ∧ r.1.heap = adoptWorld.heap) := by
+  decide
+
+/-- non-vacuity: a world with two host maps, one request naming both (one of them twice) and a
+    nil map, a denial and an override: the host maps are untouched and the result is the fold of
+    the flattened sequence -/
+example :
+    let w : World := ⟨[(7, [([120], 9), ([121], 8)]), (8, [([120], 6)])], [], []⟩
+    let b : Build := ⟨[.globalsMap 7, .opt (.without [121]), .globalsMap 8, .globalsMap 3, .globalsMap 7,
+      .opt (.override [122] 4)], [([111, 115], 1)], [], [], [[121]], [([122], 4)]⟩
+    flatten w.heap b.opts = [.withGlobal [120] 9, .withGlobal [121] 8, .without [121], .withGlobal [120] 6,
+      .withGlobal [120] 9, .withGlobal [121] 8, .override [122] 4] ∧
+    (build false w b).1.heap = w.heap ∧
+    (build false w b).2.own = [([120], 9), ([111, 115], 1), ([122], 4)] := by
   decide
 
 end Risor.C11
